@@ -40,6 +40,56 @@ theorem writeEvents_ok {plan : Nat → Fault} (evs : List (List Nat)) :
       rw [r2, e1, e4, e5, appendBytes_appendBytes]
       simp [laid]
 
+/-- The sync of the written prefix never turns a failed attempt into a successful one. -/
+theorem syncWritten_ne_ok (plan : Nat → Fault) (n : List Nat) (b b' : Batch) (s s' : St) :
+    syncWritten plan n b b' s ≠ (.ok, s') := by
+  unfold syncWritten
+  split
+  · cases hf : flushFile plan s with
+    | err s3 => simp
+    | crash s3 => simp
+    | ok u s3 => simp only; cases hy : syncAll plan n s3 <;> simp
+  · simp
+
+theorem syncWritten_active (plan : Nat → Fault) (n : List Nat) (b b' : Batch) {s : St} (h : s.active = none) :
+    (syncWritten plan n b b' s).2.active = none := by
+  unfold syncWritten
+  split
+  · have f2 := flushFile_active plan h
+    cases hf : flushFile plan s with
+    | err s3 => simp only [hf, R.st] at f2 ⊢; exact f2
+    | crash s3 => simp only [hf, R.st] at f2 ⊢; exact f2
+    | ok u s3 =>
+      simp only [hf, R.st] at f2 ⊢
+      have y2 := syncAll_active plan n f2
+      cases hy : syncAll plan n s3 <;> simp only [hy, R.st] at y2 ⊢ <;> exact y2
+  · exact h
+
+/-- When the attempt still ends in a retry, the batch handed back is the one the write loop produced, and either
+    nothing had been written (no IO at all) or the flush and the sync of the written prefix both succeeded. -/
+theorem syncWritten_retry {plan : Nat → Fault} {n : List Nat} {b b' b'' : Batch} {s s' : St}
+    (h : syncWritten plan n b b' s = (.retry b'', s')) :
+    b'' = b' ∧ ((b'.remaining = b.remaining ∧ s' = s) ∨
+      (b'.remaining ≠ b.remaining ∧ ∃ s3, flushFile plan s = .ok () s3 ∧ syncAll plan n s3 = .ok () s')) := by
+  unfold syncWritten at h
+  split at h
+  · rename_i hne
+    cases hf : flushFile plan s with
+    | err s3 => simp only [hf] at h; cases h
+    | crash s3 => simp only [hf] at h; cases h
+    | ok u s3 =>
+      simp only [hf] at h
+      cases hy : syncAll plan n s3 with
+      | err s4 => simp only [hy] at h; cases h
+      | crash s4 => simp only [hy] at h; cases h
+      | ok u' s4 =>
+        simp only [hy] at h
+        cases h
+        exact ⟨rfl, .inr ⟨hne, s3, rfl, hy⟩⟩
+  · rename_i heq
+    cases h
+    exact ⟨rfl, .inl ⟨by simpa using heq, rfl⟩⟩
+
 theorem writeEvents_res_ok {plan : Nat → Fault} (evs : List (List Nat)) :
     ∀ {a : Active} {oa : Option Active} {b : Batch} {s s' : St},
       writeEvents cfg plan a b s evs = (.ok, oa, s') → ∃ a', oa = some a' := by
@@ -126,6 +176,54 @@ theorem occurs_laid (hwf : WfEvents E c) {t : Bool} (evs : List (List Nat)) :
     rcases List.mem_cons.mp he with rfl | hr
     · exact (Occurs.of_clean hwf hclean' e).append _
     · exact ih hnext.good (fun _ => hnext) (fun x hx => hE x (by simp [hx])) e hr
+
+/-! ### a failed write: what it leaves behind, and the byte counter of the batch handed back -/
+
+theorem writeAll_err {plan : Nat → Fault} {n buf : List Nat} {s s' : St} (h : writeAll plan n buf s = .err s') :
+    ∃ t, s'.fs = appendBytes s.fs n t := by
+  unfold writeAll at h
+  split at h
+  · cases h
+  · split at h
+    · cases h
+    · cases h; exact ⟨[], (appendBytes_nil _ _).symm⟩
+    · cases h; exact ⟨_, rfl⟩
+    · cases h
+
+theorem writeEvent_err {cfg : Config} {plan : Nat → Fault} {a : Active} {e : List Nat} {s s' : St}
+    (h : writeEvent cfg plan a e s = .err s') : ∃ t, s'.fs = appendBytes s.fs a.name t := by
+  unfold writeEvent at h
+  by_cases hnr : a.needsRecovery = true
+  · simp only [hnr, if_true] at h
+    cases h1 : writeAll plan a.name cfg.sep s with
+    | err s1 => simp only [h1] at h; cases h; exact writeAll_err h1
+    | crash s1 => simp only [h1] at h; cases h
+    | ok u s1 =>
+      simp only [h1] at h
+      obtain ⟨k1, _, _⟩ := writeAll_ok h1
+      cases h2 : writeAll plan a.name e s1 with
+      | err s2 =>
+        simp only [h2] at h; cases h
+        obtain ⟨t, ht⟩ := writeAll_err h2
+        exact ⟨cfg.sep ++ t, by rw [ht, k1, appendBytes_appendBytes]⟩
+      | crash s2 => simp only [h2] at h; cases h
+      | ok u2 s2 => simp only [h2] at h; cases h
+  · simp only [hnr, Bool.false_eq_true, if_false] at h
+    cases h2 : writeAll plan a.name e s with
+    | err s2 => simp only [h2] at h; cases h; exact writeAll_err h2
+    | crash s2 => simp only [h2] at h; cases h
+    | ok u2 s2 => simp only [h2] at h; cases h
+
+theorem Batch.remaining_foldl_advance (pre : List (List Nat)) :
+    ∀ (b : Batch), (pre.foldl Batch.advance b).remaining = b.remaining - (pre.map List.length).sum := by
+  induction pre with
+  | nil => intro b; simp
+  | cons e pre ih =>
+    intro b
+    simp only [List.foldl_cons, List.map_cons, List.sum_cons]
+    rw [ih]
+    simp only [Batch.advance]
+    omega
 
 end
 
